@@ -16,7 +16,7 @@ LEVEL_NOTE = "Trusted: probe on _ControlLoopRunner._process_tick (attached from 
 DESIGN_REF = "§5 C11"
 RULE = "case = generated program + schedule (+ resume point); distinct = tick-order signature hash; non-trivial = run had >= 8 ticks"
 REQUIRED_REACH = ["state_compare", "compare_with_in_progress", "compare_with_waiters", "compare_with_collected", "compare_with_retry_attempts", "resumed_case",
-                  "family_fan", "family_wait", "family_retry", "family_collect", "family_catch", "public_view_compare", "public_view_with_in_progress"]
+                  "family_fan", "family_wait", "family_retry", "family_collect", "family_catch", "public_view_compare", "public_view_with_in_progress", "late_replay_compare"]
 ASSUMPTIONS = ["<= 150 ticks per run"]
 FAMILIES = [("fan", 2), ("wait", 2), ("retry", 2), ("collect", 1), ("catch", 1), ("outcomes", 1)]
 
@@ -54,6 +54,15 @@ def _hook(acc, case, box):
             return
         live, reb = oracles.norm_state(runner.state), oracles.norm_state(rebuilt)
         acc.hit("state_compare")
+        # which failure of its event is this tick? (the known re-stamping finding can only bite at an event's FIRST failure)
+        nth_failure = 0
+        if type(tick).__name__ == "TickStepResult" and any(type(r).__name__ == "StepWorkerFailed" for r in getattr(tick, "result", [])):
+            key = (tick.step_name, repr(getattr(tick.event, "_data", tick.event)))
+            cnt = box.setdefault("failures", {})
+            cnt[key] = nth_failure = cnt.get(key, 0) + 1
+        if _uses_elapsed(case["case"]["spec"]):
+            box.setdefault("late", []).append((len(ticks), live, type(tick).__name__, nth_failure))
+            box["late_src"] = (init, ticks)
         for w in live["workers"].values():
             if w["in_progress"]:
                 acc.hit("compare_with_in_progress")
@@ -71,7 +80,7 @@ def _hook(acc, case, box):
             box["violated"] = True
             field = d[0][0] if d[0][0] == "is_running" else d[0][1]
             acc.violation({"mech": "rebuilt_state_differs_from_live", "field": field, "elapsed_time_policy": _uses_elapsed(case["case"]["spec"]),
-                           "resumed": bool(case.get("phase") == "resumed")},
+                           "resumed": bool(case.get("phase") == "resumed"), "later_failure_of_the_event": nth_failure > 1},
                           f"after tick #{len(ticks)} ({type(tick).__name__}) live vs rebuilt differ: {json.dumps(d[:2], default=str)[:600]}", case)
 
     return after_tick
@@ -125,12 +134,40 @@ def _public_view(acc, case, box, runner, tick, n_ticks):
     box.setdefault("running_checks", []).append((handler, running_live, n_ticks))
 
 
+def _late_replay(acc, wit, box):
+    """Replay every prefix of the finished run's tick log LATER (500 virtual seconds on) and compare with the live state
+    recorded after that tick: the replay must depend on the log only, not on when it is run."""
+    from vf import oracles, vclock
+    from workflows.runtime.control_loop import rebuild_state_from_ticks
+
+    if not box.get("late") or box.get("violated"):
+        return
+    init, ticks = box["late_src"]
+    vclock.burn(500.0)
+    for (k, live, tname, nth_failure) in box["late"]:
+        try:
+            reb = oracles.norm_state(rebuild_state_from_ticks(init, ticks[:k]))
+        except Exception as e:  # noqa: BLE001
+            acc.violation({"mech": "rebuild_raises", "exc": type(e).__name__, "late_replay": True}, f"late replay of {k} ticks raised {e!r}", wit)
+            return
+        acc.hit("late_replay_compare")
+        d = oracles.diff_state(live, reb)
+        if d:
+            field = d[0][0] if d[0][0] == "is_running" else d[0][1]
+            acc.violation({"mech": "rebuilt_state_differs_from_live", "field": field, "elapsed_time_policy": True, "resumed": bool(wit.get("phase") == "resumed"),
+                           "later_failure_of_the_event": nth_failure > 1, "late_replay": True},
+                          f"tick log prefix of {k} ticks (last {tname}, failure #{nth_failure} of its event) replayed 500 s later differs from the live state after that tick: "
+                          f"{json.dumps(d[:2], default=str)[:500]}", wit)
+            return
+
+
 def run_one(case, acc):
     from vf import engine_run, oracles
 
     box = {}
     wit = {"case": case}
     tr = engine_run.run_case(case["spec"], extra={"after_tick": _hook(acc, wit, box)})
+    _late_replay(acc, wit, box)
     acc.case()
     acc.hit("family_" + case["family"])
     if tr.errors:
